@@ -13,7 +13,7 @@ fn gen_seq(rng: &mut Rng) -> Vec<HV> {
     let k = rng.urange(2, 50.min(2 + rng.clone().usize_below(49)));
     let mut v: Vec<HV> = Vec::new();
     for i in 0..k {
-        let h = match rng.below(7) {
+        let h = match rng.below(9) {
             0 => HV { log: hashes::gen_log(rng), bh1: vec![], bh2: vec![] }, // empty
             1 => {
                 // full length
@@ -29,6 +29,33 @@ fn gen_seq(rng: &mut Rng) -> Vec<HV> {
                 h
             }
             2 if i > 0 => hashes::derive(rng, &v[i - 1], 64).normalized(),
+            4 => {
+                // both block hashes identical
+                let mut h = hashes::gen_hv(rng, 64, true);
+                h.bh2 = h.bh1.clone();
+                h
+            }
+            5 if i > 0 => {
+                // differs from its predecessor in exactly one component, same lengths
+                let mut h = v[i - 1].clone();
+                match rng.below(4) {
+                    0 => {
+                        if !h.bh2.is_empty() {
+                            let p = rng.usize_below(h.bh2.len());
+                            h.bh2[p] = (h.bh2[p] + 1 + rng.below(62) as u8) % 64;
+                        }
+                    }
+                    1 => {
+                        if !h.bh1.is_empty() {
+                            let p = rng.usize_below(h.bh1.len());
+                            h.bh1[p] = (h.bh1[p] + 1 + rng.below(62) as u8) % 64;
+                        }
+                    }
+                    2 => h.log = (h.log + 1) % 31,
+                    _ => std::mem::swap(&mut h.bh1, &mut h.bh2),
+                }
+                h.normalized()
+            }
             3 if i > 0 => v[rng.usize_below(i)].clone(),
             _ => hashes::gen_hv(rng, 64, true),
         };
@@ -111,6 +138,20 @@ fn check_array_seq(l: &mut Local, rng: &mut Rng) {
                 l.eval(1);
                 let empty = BlockHashPositionArray::new();
                 l.check(pa == empty && pa.is_valid() && pa.is_empty() && pa.len() == 0 && pa.is_equiv(&[]), "array-clear", || (sig(i, "clear"), "clear() does not give an array equal to a new one".to_string()));
+            }
+            if rng.chance(1, 6) {
+                // a refused initialization (out-of-contract input, panics as documented) in between must
+                // not leave anything behind for the next successful one
+                let mut bad: Vec<u8> = hashes::gen_bh(rng, 64);
+                if rng.chance(1, 2) || bad.is_empty() {
+                    bad.extend((0..(65 - bad.len().min(64))).map(|k| (k % 64) as u8));
+                    bad.push(1);
+                } else {
+                    let p = rng.usize_below(bad.len());
+                    bad[p] = 64 + rng.below(192) as u8;
+                }
+                let refused = guard(|| pa.init_from(&bad)).is_err();
+                l.count(if refused { "refused_init_from" } else { "accepted_out_of_contract_init_from" }, 1);
             }
             pa.init_from(s);
             let mut fresh = BlockHashPositionArray::new();
